@@ -361,3 +361,268 @@ Proof.
     + exists 0; split; [lia|]. unfold enabled; cbn; unfold cstep; now rewrite CS.
     + exists (S k); split; [lia|]. unfold enabled; cbn; unfold wstep; now rewrite N, Nat.eqb_refl, CS.
 Qed.
+
+(* ---------- V1: variant.  The Search task function must eventually succeed:
+   from its (B e)-th invocation on, f of call e never answers nil. ---------- *)
+Variable B : nat -> nat.
+Hypothesis fs_eventually : forall e n, B e <= n -> fs e n <> None.
+
+Definition wm (pos : bool) (pc : wpc) : nat :=
+  match pc with
+  | WIdle | WExit => 0 | WNotify _ => 1 | WParDec => 2 | WPar _ => 3
+  | WSLoad => if pos then 6 else 2 | WSRun => 5 | WSDec _ => 4
+  | WSWrite _ _ => if pos then 7 else 3
+  end.
+Definition wsum (pos : bool) (ws : list worker) : nat := sum (fun wk => wm pos (snd wk)) ws.
+Definition cm (c : cpc) : nat := match c with CSelect | CWait => 1 | _ => 0 end.
+Definition measure (s : pstate) : nat :=
+  2 * (B (epoch s) - ncalls (cur s)) + 4 * Z.to_nat (ctr (cur s))
+  + wsum (0 <? ctr (cur s))%Z (workers s)
+  + 7 * (total s - cmdI s) + 2 * (total s - done s) + cm (caller s).
+
+Lemma wsum_upd b k x old ws : nth_error ws k = Some old ->
+  wsum b (upd k x ws) + wm b (snd old) = wsum b ws + wm b (snd x).
+Proof. intros N. unfold wsum. exact (sum_upd (fun wk => wm b (snd wk)) k x old ws N). Qed.
+Lemma wsum_mono b' b ws : (b' = true -> b = true) -> wsum b' ws <= wsum b ws.
+Proof.
+  intros H. apply sum_le. intros [e pc]; cbn.
+  destruct b', b; auto; try (specialize (H eq_refl); discriminate); destruct pc; cbn; lia.
+Qed.
+Lemma sum_ge {A} (f : A -> nat) k a l : nth_error l k = Some a -> f a <= sum f l.
+Proof. revert k; induction l as [|b l IH]; intros [|k] N; cbn in *; try discriminate.
+  - injection N as ->; lia.
+  - specialize (IH _ N); lia.
+Qed.
+Arguments wsum : simpl never.
+Arguments Z.to_nat : simpl never.
+Arguments Nat.mul : simpl never.
+Arguments Nat.sub : simpl never.
+
+Lemma measure_step s g s' : Inv s -> step_opt1 s g = Some s' -> measure s' < measure s.
+Proof.
+  intros I E. pose proof (inv_cmd s I) as IC. destruct g as [|k]; cbn [step_opt] in E.
+  - unfold cstep in E. destruct (caller s) eqn:C; try discriminate. injection E as <-.
+    unfold measure; cbn -[Nat.ltb]. rewrite C. destruct (done s <? total s); cbn; lia.
+  - unfold wstep in E. destruct (nth_error (workers s) k) as [[e pc]|] eqn:N; [|discriminate].
+    assert (W : wf_worker s (e, pc)) by (eapply Forall_forall; [apply I | eapply nth_error_In; eauto]).
+    pose proof (fun b x => wsum_upd b k x _ _ N) as SU.
+    pose proof (sum_ge busy _ _ _ N) as BG.
+    destruct I as [I1 I2 I3 I4 I5 I6 I7 I8 I9].
+    destruct pc; cbn in W, BG.
+    + destruct (caller s) eqn:C; try discriminate. injection E as <-.
+      unfold measure; cbn -[Nat.ltb]. rewrite C.
+      specialize (SU (0 <? ctr (cur s))%Z (epoch s, match kind_of s with Par => WPar (cmdI s) | Srch => WSLoad end)).
+      assert (cm (if S (cmdI s) <? total s then CSelect else CWait) = 1) by (destruct (_ <? _); auto).
+      revert SU. destruct (kind_of s), (0 <? ctr (cur s))%Z; cbn -[Nat.ltb]; rewrite H; lia.
+    + destruct W as (-> & K & Hi). local_step E. injection E as <-.
+      unfold measure; cbn. specialize (SU (0 <? ctr (cur s))%Z (retag (epoch s) WParDec)). cbn in SU. lia.
+    + destruct W as (-> & K). local_step E. injection E as <-.
+      unfold measure; cbn.
+      specialize (SU (0 <? ctr (cur s) - 1)%Z (retag (epoch s) (WNotify Par))). cbn in SU.
+      pose proof (wsum_mono (0 <? ctr (cur s) - 1)%Z (0 <? ctr (cur s))%Z (workers s)) as M.
+      assert (Z.to_nat (ctr (cur s) - 1) <= Z.to_nat (ctr (cur s))) by lia.
+      lapply M; [lia|]. intros P; apply Z.ltb_lt in P; apply Z.ltb_lt; lia.
+    + destruct W as (-> & K). local_step E. injection E as <-.
+      unfold measure; cbn.
+      specialize (SU (0 <? ctr (cur s))%Z (retag (epoch s) (if (0 <? ctr (cur s))%Z then WSRun else WNotify Srch))).
+      revert SU; destruct (0 <? ctr (cur s))%Z; cbn; lia.
+    + destruct W as (-> & K). local_step E. injection E as <-.
+      unfold measure; cbn.
+      specialize (SU (0 <? ctr (cur s))%Z (retag (epoch s) (match fs (epoch s) (ncalls (cur s)) with None => WSLoad | Some x => WSDec x end))).
+      pose proof (fs_eventually (epoch s) (ncalls (cur s))) as FE.
+      revert SU. destruct (fs (epoch s) (ncalls (cur s))); cbn.
+      * lia.
+      * assert (ncalls (cur s) < B (epoch s)) by (destruct (le_lt_dec (B (epoch s)) (ncalls (cur s))); auto; now apply FE in l).
+        destruct (0 <? ctr (cur s))%Z; lia.
+    + destruct W as (-> & K & P). local_step E. injection E as <-.
+      unfold measure; cbn.
+      specialize (SU (0 <? ctr (cur s) - 1)%Z (retag (epoch s) (WSWrite (ctr (cur s) - 1) x))). cbn in SU.
+      pose proof (wsum_mono (0 <? ctr (cur s) - 1)%Z (0 <? ctr (cur s))%Z (workers s)) as M.
+      lapply M; [|intros Q; apply Z.ltb_lt in Q; apply Z.ltb_lt; lia]. clear M; intros M.
+      destruct (0 <? ctr (cur s))%Z eqn:P0.
+      * apply Z.ltb_lt in P0. assert (Z.to_nat (ctr (cur s) - 1) + 1 = Z.to_nat (ctr (cur s))) by lia.
+        destruct (0 <? ctr (cur s) - 1)%Z; lia.
+      * apply Z.ltb_ge in P0. assert (P1 : (0 <? ctr (cur s) - 1)%Z = false) by (apply Z.ltb_ge; lia).
+        rewrite P1 in *. assert (Z.to_nat (ctr (cur s) - 1) = Z.to_nat (ctr (cur s))) by lia. lia.
+    + destruct W as (-> & K & P & Hi). local_step E. injection E as <-.
+      assert (CTR : ctr (if (0 <=? i)%Z then mkCell (ctr (cur s)) (upd (Z.to_nat i) (Some x) (results (cur s))) (ncalls (cur s)) else cur s) = ctr (cur s))
+        by (destruct (0 <=? i)%Z; auto).
+      assert (NC : ncalls (if (0 <=? i)%Z then mkCell (ctr (cur s)) (upd (Z.to_nat i) (Some x) (results (cur s))) (ncalls (cur s)) else cur s) = ncalls (cur s))
+        by (destruct (0 <=? i)%Z; auto).
+      unfold measure; cbn -[Z.leb]. rewrite CTR, NC.
+      specialize (SU (0 <? ctr (cur s))%Z (retag (epoch s) WSLoad)). cbn in SU.
+      destruct (0 <? ctr (cur s))%Z; lia.
+    + assert (EP : e = epoch s) by (destruct kd; tauto). subst e. rewrite Nat.eqb_refl in E.
+      assert (AN : retag (epoch s) (after_notify V1 kd) = (0, WIdle)) by (destruct kd; auto). rewrite AN in E.
+      specialize (SU (0 <? ctr (cur s))%Z (0, WIdle)). cbn in SU.
+      destruct (caller s) eqn:C; try discriminate; injection E as <-; unfold measure; cbn; rewrite C; cbn; lia.
+    + destruct W.
+Qed.
+
+Notation run1 := (run V1 fp fs).
+
+Lemma run_app s l1 l2 : run1 s (l1 ++ l2) = run1 (run1 s l1) l2.
+Proof. apply fold_left_app. Qed.
+
+Lemma step_reachable w s g : reachable w s -> reachable w (step1 s g).
+Proof. intros R. destruct (enabled1 s g) eqn:E; [now apply R_step | now rewrite disabled_step]. Qed.
+Lemma run_reachable w s l : reachable w s -> reachable w (run1 s l).
+Proof. revert s; induction l as [|g l IH]; intros s R; cbn; auto. apply IH, step_reachable, R. Qed.
+
+Theorem pool_variant w s g : reachable w s -> enabled1 s g = true -> measure (step1 s g) < measure s.
+Proof. intros R E. apply (measure_step s g); [apply (reachable_inv w), R | now apply enabled_step]. Qed.
+
+(* number of schedule entries that actually execute a step *)
+Fixpoint effective (s : pstate) (l : list nat) : nat :=
+  match l with [] => 0 | g :: r => (if enabled1 s g then 1 else 0) + effective (step1 s g) r end.
+
+Theorem pool_exec_bound w s l : reachable w s -> effective s l + measure (run1 s l) <= measure s.
+Proof.
+  revert s; induction l as [|g l IH]; intros s R; [cbn; lia|].
+  cbn [effective]. change (run1 s (g :: l)) with (run1 (step1 s g) l).
+  specialize (IH _ (step_reachable w s g R)). destruct (enabled1 s g) eqn:E.
+  - pose proof (pool_variant w s g R E). lia.
+  - rewrite disabled_step in * by auto. lia.
+Qed.
+
+Lemma run_decreases w s l g : reachable w s -> In g l -> enabled1 s g = true -> measure (run1 s l) < measure s.
+Proof.
+  revert s; induction l as [|a l IH]; intros s R HI E; [destruct HI|].
+  change (run1 s (a :: l)) with (run1 (step1 s a) l). destruct (enabled1 s a) eqn:Ea.
+  - pose proof (pool_variant w s a R Ea). pose proof (pool_exec_bound w _ l (step_reachable w s a R)). lia.
+  - rewrite disabled_step by auto. destruct HI as [->|HI]; [congruence | eauto].
+Qed.
+
+Lemma run_quiescent s l : (forall g, enabled1 s g = false) -> run1 s l = s.
+Proof.
+  intros Q; induction l as [|g l IH]; auto.
+  change (run1 s (g :: l)) with (run1 (step1 s g) l). now rewrite disabled_step.
+Qed.
+
+(* w+1 goroutines taken in turn, n rounds *)
+Definition rr (w n : nat) : list nat := concat (repeat (seq 0 (S w)) n).
+
+Theorem pool_round_robin_returns w s n : 1 <= w -> reachable w s -> measure s <= n ->
+  caller (run1 s (rr w n)) = CReturn.
+Proof.
+  intros W. revert s; induction n as [|n IH]; intros s R M.
+  - cbn. destruct (caller s) eqn:C; auto;
+      (destruct (pool_progress w s W R ltac:(congruence)) as (g & _ & E);
+       pose proof (pool_variant w s g R E); lia).
+  - unfold rr; cbn [repeat concat]. rewrite run_app. fold (rr w n).
+    assert (D : caller s = CReturn \/ caller s <> CReturn) by (destruct (caller s); auto; right; discriminate).
+    destruct D as [C|C].
+    + destruct (pool_idle_after w s R C) as (_ & _ & Q). rewrite (run_quiescent s _ Q), (run_quiescent s _ Q); exact C.
+    + destruct (pool_progress w s W R C) as (g & G & E). apply IH; [apply run_reachable, R|].
+      pose proof (run_decreases w s (seq 0 (S w)) g R ltac:(apply in_seq; lia) E). lia.
+Qed.
+
+(* ---------- V1: consecutive calls ---------- *)
+Lemma step_static s g s' : step_opt1 s g = Some s' ->
+  epoch s' = epoch s /\ kind_of s' = kind_of s /\ count s' = count s.
+Proof.
+  intros E. destruct g as [|k]; cbn [step_opt] in E.
+  - unfold cstep in E. destruct (caller s); try discriminate. injection E as <-. auto.
+  - unfold wstep, set_cell in E. destruct (nth_error (workers s) k) as [[e pc]|]; [|discriminate].
+    destruct pc; try discriminate;
+    repeat match type of E with
+           | context [match ?x with _ => _ end] => destruct x; try discriminate
+           end; injection E as <-; cbn; auto.
+Qed.
+
+Lemma run_static s l : epoch (run1 s l) = epoch s /\ kind_of (run1 s l) = kind_of s /\ count (run1 s l) = count s.
+Proof.
+  revert s; induction l as [|g l IH]; intros s; auto.
+  change (run1 s (g :: l)) with (run1 (step1 s g) l).
+  destruct (IH (step1 s g)) as (A & B0 & C). unfold step in *. destruct (step_opt1 s g) eqn:E; auto.
+  destruct (step_static _ _ _ E) as (A' & B' & C'). repeat split; congruence.
+Qed.
+
+Theorem pool_reusable w calls : reachable w (run_calls V1 fp fs (pool_init w) calls).
+Proof.
+  unfold run_calls. generalize (R_init w). generalize (pool_init w).
+  induction calls as [|[[kd c] sched] calls IH]; intros s R; cbn; auto.
+  apply IH, run_reachable. unfold next_call. destruct (caller s) eqn:C; auto. now apply R_call.
+Qed.
+
+Theorem pool_call_returns w s kd c n : 1 <= w -> reachable w s -> caller s = CReturn ->
+  measure (start_call s kd c) <= n ->
+  let s' := run1 (start_call s kd c) (rr w n) in
+  reachable w s' /\ caller s' = CReturn /\ epoch s' = S (epoch s) /\ kind_of s' = kd /\ count s' = c.
+Proof.
+  intros W R C M s'. pose proof (R_call w s kd c R C) as R'. subst s'.
+  destruct (run_static (start_call s kd c) (rr w n)) as (A & B0 & C0).
+  split; [now apply run_reachable|]. split; [now apply pool_round_robin_returns|]. auto.
+Qed.
+
+Theorem pool_teardown_clean w s : reachable w s -> caller s = CReturn ->
+  Forall (fun wk => snd wk = WExit) (workers (teardown s)).
+Proof.
+  intros R C. destruct (reachable_inv _ _ R) as [I _]. pose proof (returned_idle s I C) as ID.
+  cbn. apply Forall_forall. intros wk HI. apply in_map_iff in HI as (wk0 & <- & HI0).
+  unfold is_idle. now rewrite (ID _ HI0).
+Qed.
+
+Theorem pool_nil_same_par w s : reachable w s -> caller s = CReturn -> kind_of s = Par ->
+  results (cur s) = parallelize_alone (fp (epoch s)) (count s).
+Proof. exact (pool_safety_par w s). Qed.
+
+End V1.
+
+(* nil pool, Search: same specification (count non-nil answers of f), sequentially *)
+Lemma search_alone_spec (f : nat -> option Z) Bn : (forall n, Bn <= n -> f n <> None) ->
+  forall fuel c n, (Bn - n) + c <= fuel ->
+  exists r, search_alone fuel f n c = Some r /\ length r = c /\
+            Forall (fun y => exists x m, y = Some x /\ f m = Some x) r.
+Proof.
+  intros HB. induction fuel as [|fuel IH]; intros [|c] n H; cbn; try (exists []; repeat split; auto; fail); try lia.
+  destruct (f n) as [x|] eqn:F.
+  - destruct (IH c (S n) ltac:(lia)) as (r & -> & L & P). exists (Some x :: r); cbn; repeat split; auto.
+    constructor; eauto.
+  - assert (n < Bn) by (destruct (le_lt_dec Bn n); auto; now apply HB in l).
+    apply IH; lia.
+Qed.
+
+(* ---------- V0 = pool.go as it is: counter-examples, by computation ---------- *)
+Lemma v0_quiescent_run fp fs s l : (forall g, enabled V0 fp fs s g = false) -> run V0 fp fs s l = s.
+Proof.
+  intros Q; induction l as [|g l IH]; auto.
+  change (run V0 fp fs s (g :: l)) with (run V0 fp fs (step V0 fp fs s g) l).
+  unfold step. specialize (Q g). unfold enabled in Q. destruct (step_opt V0 fp fs s g); [discriminate|auto].
+Qed.
+
+(* Parallelize, 1 worker, 1 task.  Schedule: command received; results[0] = f(0); ctr-- ; caller loads ctr = 0
+   and returns; the worker is left at `ctrChanged <- struct{}{}` for ever.  The result is correct, the worker is lost;
+   the next call on this pool blocks in its select for ever. *)
+Theorem v0_worker_leak fp fs :
+  let s := run V0 fp fs (start_call (pool_init 1) Par 1) [1; 1; 1; 0] in
+  caller s = CReturn /\ results (cur s) = [Some (fp 1 0)] /\
+  workers s = [(1, WNotify Par)] /\ existsb (blocked_forever s) (workers s) = true /\
+  (forall l, run V0 fp fs s l = s) /\
+  let s2 := start_call s Par 1 in
+  caller s2 = CSelect /\ (forall l, run V0 fp fs s2 l = s2).
+Proof.
+  cbn. repeat split; intros l; apply v0_quiescent_run; intros [|[|[|g]]]; reflexivity.
+Qed.
+
+(* Search, 1 worker, count 1, f succeeds at once.  Schedule: command; load ctr = 1; res := f(); i := ctr-- = 0;
+   caller loads ctr = 0 and returns [nil]; results[0] is written only afterwards. *)
+Theorem v0_search_nil fp fs x : fs 1 0 = Some x ->
+  let s := run V0 fp fs (start_call (pool_init 1) Srch 1) [1; 1; 1; 1; 0] in
+  caller s = CReturn /\ results (cur s) = [None] /\ workers s = [(1, WSWrite 0 x)].
+Proof. intros F. cbn. unfold step; cbn. rewrite F. cbn. auto. Qed.
+
+(* ---------- exhaustive exploration of small instances (cross-check of model and theorems; not used in any proof) ---------- *)
+From MPS Require Import Model.DispatchPool.
+Lemma explore_checks :
+  (* V1: no deadlock, no lost worker, no bad return; (states, terminal, deadlocked, leaked, bad) *)
+  explore_pool V1 Par 2 2 2 0 1000 = (mkC 108 1 0 0 0, true) /\
+  explore_pool V1 Par 3 2 1 0 1000 = (mkC 121 1 0 0 0, true) /\
+  explore_pool V1 Par 2 3 1 0 1000 = (mkC 93 1 0 0 0, true) /\
+  explore_pool V1 Srch 2 2 2 1 20000 = (mkC 3318 36 0 0 0, true) /\
+  (* V0: lost workers after one call, deadlock in the second; Search returns nil slots *)
+  explore_pool V0 Par 1 1 2 0 1000 = (mkC 21 3 1 2 0, true) /\
+  explore_pool V0 Par 2 2 2 0 1000 = (mkC 143 9 1 10 0, true) /\
+  explore_pool V0 Srch 1 1 1 0 1000 = (mkC 17 2 0 1 1, true) /\
+  explore_pool V0 Srch 2 2 2 1 20000 = (mkC 2730 58 6 66 216, true).
+Proof. vm_compute. repeat split. Qed.
